@@ -21,7 +21,10 @@ PID = "C03"
 def float_jacobians(p, cse, e):
     with quiet():
         pn, sn = pyh.noise_vals_from_env(p, e)
-        ekf = pyh.build_ekf_float(p, e, cse=cse, pn=pn, sn=sn)
+        calmap = pyh.float_calibration_map(p, e)
+        ekf = pyh.build_ekf_float(p, e, cse=cse, pn=pn, sn=sn, calmap=calmap)
+        for k_ in list(calmap):
+            calmap[k_] = calmap[k_] * 3.0 + 1.0  # the caller reuses its dictionary afterwards
         st = ekf.State(**{s: float(e[s]) for s in p.state})
         ct = ekf.Control(**{c: float(e[c]) for c in p.control})
         out = {"G": ekf.process_jacobian(float(e[p.dt]), st, ct), "V": ekf.control_jacobian(float(e[p.dt]), st, ct)}
@@ -87,7 +90,12 @@ def task(p, cse, tier, seed):
 
     def harness():
         with installed(), quiet():
-            ekf = pyh.build_ekf_sym(p, env, pn, sn, cse=cse)
+            calmap = pyh.sym_calibration_map(p, env)
+            ekf = pyh.build_ekf_sym(p, env, pn, sn, cse=cse, calmap=calmap)
+            # the caller goes on to reuse its calibration dictionary (e.g. for the next filter of a sweep): the filter
+            # that was already built must keep the values it was built with
+            for k_ in list(calmap):
+                calmap[k_] = SymReal(z3.Real("reused_" + k_.name))
             st = ekf.State(**pyh.sym_state_kwargs(p.state, env))
             ct = ekf.Control(**pyh.sym_state_kwargs(p.control, env))
             out = {"G": ekf.process_jacobian(SymReal(env[p.dt]), st, ct), "V": ekf.control_jacobian(SymReal(env[p.dt]), st, ct)}
@@ -131,7 +139,10 @@ def task(p, cse, tier, seed):
         for pt, got in conc:
             for i in range(len(rows)):
                 for j in range(len(cols)):
-                    v = zeval(lift(M[i, j]), pt)
+                    try:
+                        v = zeval(lift(M[i, j]), pt)
+                    except KeyError:
+                        continue  # the term mentions something that is not an input: the equality obligation below decides
                     if not approx_equal(float(v), float(got[which][i, j])):
                         part.harness_error(f"{key_base}: encoding validation failed {which}[{i},{j}] at {pt}: {v} vs {got[which][i, j]}")
         for i, r in enumerate(rows):
@@ -186,7 +197,7 @@ def task(p, cse, tier, seed):
 
 def programs_for(tier, seed):
     if tier == "quick":
-        return [CP.P1(), CP.P3(), CP.P8(), CP.P10(), CP.P12()]
+        return [CP.P1(), CP.P3(), CP.P8(), CP.P10(), CP.P12(), CP.P14()]
     ps = CP.all_fixed() + CP.presence_variants(CP.P3())[1:] + CP.presence_variants(CP.P10())[1:]
     ps += [CP.random_program(seed, i) for i in range(10)]
     return ps
